@@ -248,8 +248,19 @@ class Verifier(Engine, ExprMixin, StmtMixin, CallMixin):
         if self.fi.is_generator:
             for (label, expr, cls) in c.end:
                 self.oblig(st, "end", self.spec_bool(expr, st), line, label=label, cls=cls)
-        for (label, expr, cls) in c.ensures:
-            self.oblig(st, "post", self.spec_bool(expr, st), line, label=label, cls=cls)
+        # in a postcondition a parameter name denotes the argument the caller passed (its entry value), whatever the body
+        # rebinds the name to; objects and arrays are read in the final heap.  (A post evaluated over a rebound
+        # parameter would silently follow the code: `window = min(window, n)` once went unnoticed that way.)
+        saved_env = st.env
+        if not getattr(c, "post_uses_final_params", False):
+            st.env = dict(st.env)
+            for p_, v_ in self.param_vals.items():
+                st.env[p_] = v_
+        try:
+            for (label, expr, cls) in c.ensures:
+                self.oblig(st, "post", self.spec_bool(expr, st), line, label=label, cls=cls)
+        finally:
+            st.env = saved_env
         for rz in c.raises:
             if rz.when is not None:
                 # raised iff `when`: a normal return must not satisfy it (evaluated over entry state)
